@@ -23,28 +23,39 @@ CONSTANTS NsU, ClsU, KeyU, ValS, ValT, ValU, BadU, GenDepth
 VARIABLES si, s, bad, hist
 vars == <<si, s, bad, hist>>
 
+BadAll == BadToks \cup {"none"}   \* every bad-property class (cfg: BadU <- BadAll)
 Vals3 == [s : ValS, t : ValT, u : ValU]
+CallI(op, ns, c, k, vals, bp, kp, hp, pl, deep, ic) ==
+  [op |-> op, ns |-> ns, cls |-> c, icls |-> ic, k |-> k, vals |-> vals,
+   badprop |-> bp, kprop |-> kp, hasplist |-> hp, plist |-> pl, deep |-> deep]
 Call(op, ns, c, k, vals, bp, kp, hp, pl, deep) ==
-  [op |-> op, ns |-> ns, cls |-> c, k |-> k, vals |-> vals, badprop |-> bp,
-   kprop |-> kp, hasplist |-> hp, plist |-> pl, deep |-> deep]
+  CallI(op, ns, c, k, vals, bp, kp, hp, pl, deep, c)
 NoVals == [s |-> "unset", t |-> "unset", u |-> "unset"]
-Plists == {<<>>, <<"s">>, <<"u">>, <<"s", "s", "t">>}
+Plists == {<<>>, <<"s">>, <<"u">>, <<"s", "s", "t">>, <<"k", "s">>}
+
+(* PropertyList argument: absent, or one of Plists (the list is irrelevant  *)
+(* when no PropertyList is passed)                                          *)
+HPl == {<<FALSE, <<>>>>} \cup {<<TRUE, pl>> : pl \in Plists}
 
 Calls ==
   {Call("Create", ns, c, k, v, bp, 0, FALSE, <<>>, TRUE) :
      ns \in NsU, c \in ClsU, k \in KeyU \cup {0}, v \in Vals3, bp \in BadU}
-  \cup {Call("Modify", ns, c, k, v, bp, kp, hp, pl, TRUE) :
+  \cup {Call("Modify", ns, c, k, v, bp, kp, h[1], h[2], TRUE) :
      ns \in NsU, c \in ClsU, k \in KeyU, v \in Vals3, bp \in BadU,
-     kp \in KeyU \cup {0}, hp \in BOOLEAN, pl \in Plists}
-  \cup {Call(op, ns, c, k, NoVals, "none", 0, hp, pl, TRUE) :
-     op \in {"Delete", "Get"}, ns \in NsU, c \in ClsU, k \in KeyU,
-     hp \in BOOLEAN, pl \in Plists}
-  \cup {Call(op, ns, c, 0, NoVals, "none", 0, hp, pl, deep) :
+     kp \in KeyU \cup {0}, h \in HPl}
+  \* ModifiedInstance.classname and .path.classname name different classes
+  \cup {x \in {CallI("Modify", ns, c, k, v, "none", 0, FALSE, <<>>, TRUE, ic) :
+                 ns \in NsU, c \in ClsU, k \in KeyU, v \in Vals3, ic \in ClsU} :
+          x.icls # x.cls}
+  \cup {Call(op, ns, c, k, NoVals, "none", 0, h[1], h[2], TRUE) :
+     op \in {"Delete", "Get"}, ns \in NsU, c \in ClsU, k \in KeyU, h \in HPl}
+  \cup {Call(op, ns, c, 0, NoVals, "none", 0, h[1], h[2], deep) :
      op \in {"Enum", "EnumNames"}, ns \in NsU, c \in ClsU,
-     hp \in BOOLEAN, pl \in Plists, deep \in BOOLEAN}
+     h \in HPl, deep \in BOOLEAN}
 
 Event(c, r, st2) ==
-  [op |-> c.op, ns |-> c.ns, cls |-> c.cls, k |-> c.k, vals |-> c.vals,
+  [op |-> c.op, ns |-> c.ns, cls |-> c.cls, icls |-> c.icls, k |-> c.k,
+   vals |-> c.vals,
    badprop |-> c.badprop, kprop |-> c.kprop, hasplist |-> c.hasplist,
    plist |-> c.plist, deep |-> c.deep, ok |-> r.ok, code |-> r.code,
    rk |-> r.rk, rinsts |-> r.rinsts, dump |-> DumpSeq(st2)]
